@@ -9,7 +9,7 @@ from ..harness import World, execute, place_summary, probe, violation
 
 LEVEL = "exploration"
 PLAN = {
-    "quick": {"mem": 500, "redis": 350, "rabbit": 350},
+    "quick": {"mem": 800, "redis": 500, "rabbit": 500},
     "thorough": {"mem": 20000, "redis": 15000, "rabbit": 15000},
 }
 BUDGET = {"quick": 50, "thorough": 900}
